@@ -9,9 +9,14 @@ package alephium
 //   conf   <id> mainnet= net= cl= p0= h= ts= height= now= res= clafter=   isEventConfirmed called directly (exact boundaries); net = the shipped
 //                                                                    configuration a watcher was constructed from beforehand ("-" none)
 //   dur    <id> mainnet= net= transfer= cl= res=                     getConfirmationDuration called directly
-//   hconf  <id> bridge= evs=<ev,..> hdrs=<h:ts,..> fwd=<pub,..> err=   handleConfirmedEvents called directly
+//   hconf  <id> bridge= mainnet= evs=<ev,..> hdrs=<h:ts,..> fwd=<pub,..> err=   handleConfirmedEvents called directly (pending events made by the Watcher's toUnconfirmedEvent)
 //   winit / wbatch / wtick / wheight <id> ...                        one watcher life (real handleEvents [+ real fetchEvents])
 //   reobs  <id> ...                                                  one re-observation request through the real handleObsvRequest
+//
+// wbatch <id> evs= direct= reqs= out= res= en=: a page handed to the event loop through the watcher's own handleUnconfirmedEvents (evs -> out);
+// direct = events the production route never delivers (event index != 0), built by the harness and appended.
+// reobs / wreobs carry stray=<chain:tx,..>: what the watcher's own request queue (capacity as in cmd/guardiand/node.go) held after the
+// loop had finished with the one request the harness - playing the dispatcher - had put there.
 //
 // winit carries ctor= (the shipped configuration NewAlephiumWatcher built the Watcher from, "-" = struct literal), w= (what the Watcher
 // holds: bridge;governance address;fromGroup;toGroup;isMainnet) and, with a constructor, cfg= (tokenBridge;governance;groupIndex;
@@ -29,7 +34,11 @@ import (
 	"encoding/json"
 	"fmt"
 	"math"
+	"os"
+	"path/filepath"
+	"regexp"
 	"sort"
+	"strconv"
 	"strings"
 	"sync/atomic"
 	"time"
@@ -69,6 +78,122 @@ func (e *evSpec) toUnconfirmed() *UnconfirmedEvent {
 		msg: &WormholeMessage{txId: e.tx, senderId: sender, targetChainId: e.m.tc, nonce: e.m.nonce, payload: e.m.payload,
 			Sequence: e.m.seq, consistencyLevel: e.m.cl},
 	}
+}
+
+// contractEvent: the event as the client decodes it from the node's JSON.
+func (e *evSpec) contractEvent() (*sdk.ContractEvent, bool) {
+	var ce sdk.ContractEvent
+	if err := json.Unmarshal([]byte(evJSON(e, false)), &ce); err != nil {
+		return nil, false
+	}
+	return &ce, true
+}
+
+// unconfirmedVia: the pending form of the event as the watcher itself makes it - Watcher.toUnconfirmedEvent on the event as decoded
+// from the node's JSON, the one function through which a fetched event becomes a pending one. What that function rejects (an event
+// index other than 0, fields that do not convert) has no production form: only then the value is built by hand.
+func (e *evSpec) unconfirmedVia(w *Watcher) (u *UnconfirmedEvent) {
+	defer func() {
+		if rec := recover(); rec != nil {
+			u = e.toUnconfirmed()
+		}
+	}()
+	if ce, ok := e.contractEvent(); ok {
+		if pu, err := w.toUnconfirmedEvent(ce); err == nil && pu != nil && pu.ContractEvent != nil && pu.msg != nil {
+			return pu
+		}
+	}
+	return e.toUnconfirmed()
+}
+
+// pageOf: a page answer holding exactly these events, as the client decodes it.
+func pageOf(evs []*evSpec) *sdk.ContractEvents {
+	var page sdk.ContractEvents
+	js := make([]string, len(evs))
+	for i, e := range evs {
+		js[i] = evJSON(e, false)
+	}
+	json.Unmarshal([]byte(fmt.Sprintf(`{"events":[%s],"nextStart":%d}`, strings.Join(js, ","), len(evs))), &page)
+	return &page
+}
+
+// ---------------------------------------------------------------------------------------------
+// the watcher's re-observation request queue
+
+var obsQueueCapCache int
+
+// obsQueueCap: the capacity cmd/guardiand/node.go gives every watcher's request queue (`observationRequestBufferSize`), read from
+// the source of the tree under test (the package directory is the working directory); 25 if it cannot be found.
+func obsQueueCap() int {
+	if obsQueueCapCache == 0 {
+		obsQueueCapCache = 25
+		if src, err := os.ReadFile(filepath.Join("..", "..", "cmd", "guardiand", "node.go")); err == nil {
+			if m := regexp.MustCompile(`(?m)^\s*(?:const\s+)?observationRequestBufferSize\s*=\s*(\d+)`).FindSubmatch(src); m != nil {
+				if k, err := strconv.Atoi(string(m[1])); err == nil && k > 0 && k <= 4096 {
+					obsQueueCapCache = k
+				}
+			}
+		}
+	}
+	return obsQueueCapCache
+}
+
+func newObsQueue() chan *gossipv1.ObservationRequest {
+	return make(chan *gossipv1.ObservationRequest, obsQueueCap())
+}
+
+var sentinelSeq uint64
+
+// serveReobs plays the dispatcher: it puts req on the watcher's request queue (a non-blocking send on a buffered channel, empty
+// before) and behind it a sentinel request for a transaction whose status request the fake node holds. The loop handles one request
+// at a time, in queue order: when the sentinel's status request arrives at the node, the loop has finished with req - every node
+// request made, everything published - and is blocked inside the sentinel's. Whatever the queue holds at that moment was put
+// there by the watcher itself: it is taken off and returned (chain:tx). Then the sentinel is answered ("transaction not found") and
+// the loop goes back to an empty queue. `dead` tells that the loop is gone (panic / return); its value is returned as res.
+func serveReobs(n *fakeNode, q chan *gossipv1.ObservationRequest, req *gossipv1.ObservationRequest, dead <-chan string) (stray []string, res string) {
+	sentinelSeq++
+	stx := fmt.Sprintf("%048x%016x", 0x5e17, sentinelSeq)
+	sb, _ := hex.DecodeString(stx)
+	n.mu.Lock()
+	n.stGate = stx
+	n.stArrive, n.stRelease, n.stDone = make(chan struct{}), make(chan struct{}), make(chan struct{}, 1)
+	arrive, release, done := n.stArrive, n.stRelease, n.stDone
+	n.mu.Unlock()
+	defer func() {
+		n.mu.Lock()
+		n.stGate = ""
+		n.mu.Unlock()
+	}()
+	take := func() {
+		for {
+			select {
+			case x := <-q:
+				if x == nil {
+					stray = append(stray, "nil")
+				} else if !(x.ChainId == 255 && hex.EncodeToString(x.TxHash) == stx) {
+					stray = append(stray, fmt.Sprintf("%d:%s", x.ChainId, fhex(x.TxHash)))
+				}
+			default:
+				return
+			}
+		}
+	}
+	res = "ok"
+	q <- req
+	q <- &gossipv1.ObservationRequest{ChainId: 255, TxHash: sb}
+	select {
+	case <-arrive:
+	case res = <-dead:
+		take()
+		return
+	}
+	take()
+	release <- struct{}{}
+	select {
+	case <-done:
+	case res = <-dead:
+	}
+	return
 }
 
 // ---------------------------------------------------------------------------------------------
@@ -518,7 +643,7 @@ func (g *fgen) genHconf(n int) {
 			e.buildFields()
 			evs = append(evs, e)
 			hdrs = append(hdrs, fmt.Sprintf("%d:%d", h.Height, h.Timestamp))
-			confirmed = append(confirmed, &ConfirmedEvent{header: h, event: e.toUnconfirmed()})
+			confirmed = append(confirmed, &ConfirmedEvent{header: h, event: e.unconfirmedVia(w)})
 		}
 		errS := "0"
 		func() {
@@ -531,7 +656,7 @@ func (g *fgen) genHconf(n int) {
 				errS = "1"
 			}
 		}()
-		g.emit("hconf %s bridge=%s evs=%s hdrs=%s fwd=%s err=%s", g.id("hconf"), hex.EncodeToString(c.bridge), renderEvs(evs), fjoin(hdrs, ","),
+		g.emit("hconf %s bridge=%s mainnet=%s evs=%s hdrs=%s fwd=%s err=%s", g.id("hconf"), hex.EncodeToString(c.bridge), fb(c.mainnet), renderEvs(evs), fjoin(hdrs, ","),
 			fjoin(drainPubs(msgC), ","), errS)
 	}
 }
@@ -579,7 +704,8 @@ type watchRun struct {
 	reobs      bool // this life also runs the real handleObsvRequest loop (same Watcher, same client), like Watcher.Run does
 	obsC       chan *gossipv1.ObservationRequest
 	reobsDone  chan struct{}
-	lives      int // incarnations started so far (restart scenarios: the loops are started again on the same Watcher value)
+	lives      int  // incarnations started so far (restart scenarios: the loops are started again on the same Watcher value)
+	dipped     bool // a count poll of this life was answered lower than an earlier one
 }
 
 // newWatchRun: about a third of the lives run a Watcher built by the production constructor from one of the shipped configurations.
@@ -598,7 +724,7 @@ func (g *fgen) newWatchRunNet(kind string, fetch bool, viaFH bool, net string) *
 	n.gov = c.gov
 	c.installTokens(n)
 	r := &watchRun{g: g, id: g.id(kind), c: c, fetch: fetch, viaFH: viaFH, base: time.Now().UnixMilli(),
-		msgC: make(chan *common.MessagePublication, 4096), obsC: make(chan *gossipv1.ObservationRequest)}
+		msgC: make(chan *common.MessagePublication, 4096), obsC: newObsQueue()}
 	r.w = c.buildWatcher(n, r.msgC, r.obsC)
 	return r
 }
@@ -759,12 +885,27 @@ func (r *watchRun) halt() {
 // the supervisor starts it again on the same Watcher value - same client, same poller flag, same process. `down` events are
 // appended to the governance contract's log while no incarnation runs.
 //
-//	wrestart <id> why= down=<n> fwd=<pubs that appeared since the last line> reqs=<first count request> exit= panic= en=
+//	wrestart <id> why= down=<n> fwd=<pubs that appeared since the last line> reqs=<first count request> exit= panic= en= stray=<what the request queue held>
 func (r *watchRun) restart(why string, count0 string, down []*evSpec) {
 	g, n := r.g, r.g.node
 	r.halt()
 	late := drainPubs(r.msgC)
 	sort.Strings(late)
+	// no loop runs: whatever the watcher's request queue holds now, the watcher put there itself (the harness hands requests
+	// over one at a time and waits for each); it is taken off so that the next incarnation starts with an empty queue
+	var stray []string
+	for more := true; more; {
+		select {
+		case x := <-r.obsC:
+			if x == nil {
+				stray = append(stray, "nil")
+			} else {
+				stray = append(stray, fmt.Sprintf("%d:%s", x.ChainId, fhex(x.TxHash)))
+			}
+		default:
+			more = false
+		}
+	}
 	key := n.newEpoch()
 	// same Client object; only the request header that tells this incarnation's requests from the previous one's changes
 	r.w.client.impl.GetConfig().AddDefaultHeader("X-API-KEY", key)
@@ -780,7 +921,7 @@ func (r *watchRun) restart(why string, count0 string, down []*evSpec) {
 	n.mu.Unlock()
 	en := r.en()
 	rest := r.launch(count0)
-	g.emit("wrestart %s why=%s down=%d fwd=%s%s en=%s", r.id, why, len(down), fjoin(late, ","), rest, en)
+	g.emit("wrestart %s why=%s down=%d fwd=%s%s en=%s stray=%s", r.id, why, len(down), fjoin(late, ","), rest, en, fjoin(stray, ","))
 }
 
 func (r *watchRun) stop() {
@@ -990,15 +1131,43 @@ func (r *watchRun) newEvents(k int, allowMalformed bool, oneBlock bool) []*evSpe
 	return evs
 }
 
-// batch hands events straight to the real handleEvents loop (they are already converted).
+// batch hands a page to the real handleEvents loop without the fetch loop in front of it - by the production route all the same:
+// the page goes through the watcher's own handleUnconfirmedEvents (conversion by toUnconfirmedEvent, attestation validation against
+// the node), and what that delivers is what the event loop gets. Events the production route can never deliver but the confirmed-
+// event handler guards against (an event index other than 0) are appended as built by the harness (`direct`).
 func (r *watchRun) batch(evs []*evSpec) {
-	us := make([]*UnconfirmedEvent, len(evs))
-	for i, e := range evs {
-		us[i] = e.toUnconfirmed()
+	n := r.g.node
+	var prod, direct []*evSpec
+	for _, e := range evs {
+		if e.idx != 0 {
+			direct = append(direct, e)
+		} else {
+			prod = append(prod, e)
+		}
+	}
+	n.takeLog()
+	res := "ok"
+	var us []*UnconfirmedEvent
+	func() {
+		defer func() {
+			if rec := recover(); rec != nil {
+				res, us = "panic", nil
+			}
+		}()
+		var err error
+		us, err = r.w.handleUnconfirmedEvents(context.Background(), zap.NewNop(), pageOf(prod))
+		if err != nil {
+			res, us = "err", nil
+		}
+	}()
+	out := renderUnconfirmeds(us)
+	reqs := fjoin(n.takeLog(), ",")
+	for _, e := range direct {
+		us = append(us, e.toUnconfirmed())
 	}
 	r.evB <- us
 	r.barrier()
-	r.g.emit("wbatch %s evs=%s en=%s", r.id, renderEvs(evs), r.en())
+	r.g.emit("wbatch %s evs=%s direct=%s reqs=%s out=%s res=%s en=%s", r.id, renderEvs(prod), renderEvs(direct), reqs, out, res, r.en())
 }
 
 func (r *watchRun) tables() (string, string) {
@@ -1432,7 +1601,7 @@ func (g *fgen) reobsCase() {
 	n.gov = c.gov
 	c.installTokens(n)
 	msgC := make(chan *common.MessagePublication, 256)
-	obsC := make(chan *gossipv1.ObservationRequest)
+	obsC := newObsQueue()
 	w := c.buildWatcher(n, msgC, obsC)
 	base := time.Now().UnixMilli()
 	id := g.id("reobs")
@@ -1570,16 +1739,12 @@ func (g *fgen) reobsCase() {
 		done <- "returned"
 	}()
 	now := time.Now().UnixMilli()
-	res := "ok"
-	obsC <- &gossipv1.ObservationRequest{ChainId: chain, TxHash: reqHash}
-	select {
-	case obsC <- &gossipv1.ObservationRequest{ChainId: 0}: // barrier: taken only once the first request has been handled
-		cancel()
+	stray, res := serveReobs(n, obsC, &gossipv1.ObservationRequest{ChainId: chain, TxHash: reqHash}, done)
+	cancel()
+	if res == "ok" {
 		<-done
-	case res = <-done:
-		cancel()
 	}
-	g.emit("reobs %s %s now=%d reqs=%s fwd=%s res=%s", id, line, now, fjoin(n.takeLog(), ","), fjoin(drainPubs(msgC), ","), res)
+	g.emit("reobs %s %s now=%d reqs=%s fwd=%s res=%s stray=%s", id, line, now, fjoin(n.takeLog(), ","), fjoin(drainPubs(msgC), ","), res, fjoin(stray, ","))
 }
 
 // ---------------------------------------------------------------------------------------------
@@ -1803,6 +1968,74 @@ func (g *fgen) genPageFail(rounds int) {
 	}
 }
 
+// ---------------------------------------------------------------------------------------------
+// re-observation while the node API fails: one life serves requests for transactions of the token bridge while ONE kind of node
+// request of the re-observation path fails (transaction status, events by transaction id, block header, main-chain test, chain
+// height) - once, or for three requests in a row - and then answers again; the same transaction is asked for again afterwards (the
+// dispatcher forwards a pair again once its window has lapsed). The harness plays the dispatcher and owns the watcher's request
+// queue: after every request it handed over, whatever else is on that queue is recorded (`stray=`).
+
+func (g *fgen) reobsFailCase(pos string, failures int, net string) {
+	r := g.newWatchRunNet("rfail", false, false, net)
+	r.reobs = true
+	n := g.node
+	r.start("")
+	h := int32(1000)
+	n.mu.Lock()
+	n.height = h
+	n.mu.Unlock()
+	evs := r.quickEvents(2 + g.r.Intn(2))
+	for _, e := range evs {
+		r.registerTx(e, r.c.gov)
+	}
+	e := evs[0]
+	key := map[string]string{"status": "status:" + e.tx, "txev": "txev:" + e.tx, "hdr": "hdr:" + e.bh, "main": "main:" + e.bh, "height": "height"}[pos]
+	n.mu.Lock()
+	n.errs[key] = true
+	n.mu.Unlock()
+	for i := 0; i < failures && !r.exited; i++ {
+		r.reobserve(e.tx)
+		if i == 0 && g.chance(50) && !r.exited { // another transaction in between: only the failing request position is shared
+			r.reobserve(evs[1].tx)
+		}
+	}
+	r.settle()
+	for i := 0; i < 2 && !r.exited; i++ { // the node answers again
+		r.reobserve(e.tx)
+	}
+	if !r.exited {
+		r.reobserve(evs[len(evs)-1].tx)
+	}
+	r.stop()
+}
+
+func (g *fgen) genReobsFail(rounds int) {
+	for i := 0; i < rounds; i++ {
+		for _, pos := range []string{"status", "txev", "hdr", "main", "height"} {
+			for _, failures := range []int{1, 3} {
+				net := ""
+				if g.chance(30) {
+					net = shippedNets[g.r.Intn(len(shippedNets))]
+				}
+				g.reobsFailCase(pos, failures, net)
+			}
+		}
+	}
+}
+
+// genC17: the Alephium watcher's end of C17 ("forwarded ... at most once per (chain, transaction) within the suppression window",
+// observed on the watcher's request queue): re-observation requests with node failures at every request position.
+func (g *fgen) genC17() {
+	nReobs, nFail := 250, 2
+	if g.tier == "thorough" {
+		nReobs, nFail = 3000, 20
+	}
+	g.genReobsFail(nFail)
+	for i := 0; i < nReobs; i++ {
+		g.reobsCase()
+	}
+}
+
 // genC04: what reaches the signer for one on-chain event must not depend on the path it took or the configuration of the guardian
 // (C04: "every honest guardian observing the same message signs the same 32 bytes").
 func (g *fgen) genC04() {
@@ -1847,4 +2080,6 @@ func (g *fgen) genC08() {
 	g.genMeta(nMeta)
 	g.genPaths(nMeta * 2)
 	g.genPageFail(nMeta)
+	g.genDips(nMeta)
+	g.genReobsFail(nMeta)
 }
